@@ -1292,6 +1292,10 @@ class ProgGen(object):
         pts = [r.choice([SI, SI, BOOL] + ([BI] if "bi" in self.feat else [])) for _ in range(r.randint(1, 3))]
         ps = [self.fresh("m") for _ in pts]
         rt = r.choice([SI, BOOL] + ([BI] if "bi" in self.feat else []))
+        body = self._macro_body(ps, pts, rt)
+        self.macs.append({"name": self.fresh("mac"), "ps": ps, "pts": pts, "rt": rt, "body": body})
+
+    def _macro_body(self, ps, pts, rt):
         sc = Scope()
         for p_, t in zip(ps, pts):
             sc.vars[p_] = (t, False)
@@ -1301,7 +1305,22 @@ class ProgGen(object):
         body = self.expr(rt, sc, 2)
         self.in_macro -= 1
         self.funs, self.feat = save
-        self.macs.append({"name": self.fresh("mac"), "ps": ps, "pts": pts, "rt": rt, "body": body})
+        return body
+
+    def local_macro(self, t, scope, d):
+        """{ macro m(ps) == body2; e } for a macro m of result type t, e an expression that uses m; None if there is no such
+        macro.  Only placed at the head of a definition (a constant's value): that is where a macro scope begins."""
+        ms = [i for i, m in enumerate(self.macs) if m["rt"] == t]
+        if not ms:
+            return None
+        mi = self.r.choice(ms)
+        m = self.macs[mi]
+        self.in_macro += 1          # plain argument expressions (no calls of impure functions, no nested macro uses)
+        use = {"e": "mac", "mi": mi + 1, "t": t, "args": [self.expr(pt, scope, 1) for pt in m["pts"]]}
+        self.in_macro -= 1
+        if t in (SI, BI) and self.r.random() < 0.5:
+            use = prim(("si" if t == SI else "bi") + ".add", use, self.literal(t))
+        return {"e": "lmac", "mi": mi + 1, "t": t, "mbody": self._macro_body(m["ps"], m["pts"], t), "body": use}
 
     def program(self, pid=None):
         r = self.r
@@ -1383,6 +1402,22 @@ class ProgGen(object):
         self.gscope.vars[x] = (t, not (isinstance(t, list) and t[0] == "arr"))
         if "store" in self.emph and isinstance(t, list) and t[0] == "un" and "fun" in self.feat:
             self._pending_probe = (x, t)
+        if "lmac" in self.feat and t in (SI, BI) and self.macs and self.r.random() < 0.6:
+            # (opt-in feature) a constant whose value redefines a macro locally; the outer meaning is printed afterwards
+            saved = self.gscope.vars.pop(x)          # the value cannot mention the constant it defines
+            lm = self.local_macro(t, self.gscope, 2)
+            self.gscope.vars[x] = saved
+            if lm is not None:
+                self.gscope.vars[x] = (t, False)
+                self.items.append(("t", {"d": "var", "x": x, "t": t, "init": lm, "const": True}))
+                m = self.macs[lm["mi"] - 1]
+                self.in_macro += 1
+                args = [self.expr(pt, self.gscope, 1) for pt in m["pts"]]
+                self.in_macro -= 1
+                self.items.append(("t", {"d": "stmt", "x": {"e": "print", "args": [
+                    var(x), {"e": "str", "s": " "}, {"e": "mac", "mi": lm["mi"], "t": t, "args": args}, {"e": "str", "s": "\n"}]}}))
+                self.uses_lmac = True
+                return
         if "const" in self.feat and isinstance(t, str) and self.r.random() < 0.3:
             # (opt-in feature) a constant `x: T == v`: read like a variable, never assigned
             self.gscope.vars[x] = (t, False)
@@ -1556,5 +1591,21 @@ def generator_collect_family(seed, n, prefix="gc"):
         p = g.program("%s%d_%d" % (prefix, seed, i))
         i += 1
         if '"srck"' in _json.dumps(p):
+            out.append(p)
+    return out
+
+
+def local_macro_family(seed, n, prefix="lm"):
+    """n programs in which a constant's value redefines a macro locally (`x: T == { macro m(..) == ..; .. m(..) .. }`) and the
+    outer meaning is used afterwards; they are compiled with -Mno-warnings (the compiler remarks on the hiding)."""
+    out = []
+    i = 0
+    while len(out) < n and i < 40 * n + 200:
+        g = ProgGen(seed * 100003 + i)
+        g.feat |= {"mac", "fun", "lmac"}
+        p = g.program("%s%d_%d" % (prefix, seed, i))
+        i += 1
+        if getattr(g, "uses_lmac", False):
+            p["aldor_args"] = ["-Mno-warnings"]
             out.append(p)
     return out
